@@ -497,7 +497,7 @@ def r27_for_vec(src, item, ed, opts):
         k = sp.get("k", "vx_i")
         pat = src.text(*n["pat"])
         ed.replace(n["range"][0], n["body"][0], f"let mut {k}: usize = 0; while {k} < {v}.len() ", "R27")
-        ed.insert(n["body"][0] + 1, f" let {pat} = {v}[{k}]; {k} += 1; ", "R27", prio=-5)
+        ed.insert(n["body"][0] + 1, f" let {pat} = {'&' if sp.get('by_ref') else ''}{v}[{k}]; {k} += 1; ", "R27", prio=-5)
         ed.count("R27")
 
 
